@@ -249,7 +249,7 @@ REGISTER_SCENARIO(C16);
 struct C13 : Scenario {
 	const char *property() const override { return "C13"; }
 	const char *level() const override { return "fault_enumeration"; }
-	uint64_t total_runs(uint64_t, const std::string &tier) override { return tier == "quick" ? 1600 : 60000; }
+	uint64_t total_runs(uint64_t, const std::string &tier) override { return tier == "quick" ? 800 : 60000; }
 	const char *nontrivial_rule() const override {
 		return "a run is one archive (plain, extreme length fields, corrupted or random) and one call history; for it EVERY truncation "
 		       "offset 0..len (S-EOF; capped at 1500 offsets, then strided) is executed under each of 6 stream kinds (each a separate "
@@ -292,6 +292,8 @@ struct C13 : Scenario {
 		o.max_entries = 4;
 		o.max_payload = 300;
 		o.full_payload_sometimes = false;
+		// the 2 MiB -lhx- state is zeroed at every open: keep it, but rarer, so that the offset sweep stays affordable
+		if (!rng.chance(1, 12)) o.methods = {"-lz4-", "-lz5-", "-lzs-", "-lh0-", "-lh1-", "-lh4-", "-lh5-", "-lh6-", "-lh7-", "-lk7-", "-pm0-", "-pm1-", "-pm2-"};
 		gen_tree(rng, o, p.members);
 		// extreme / corrupted variants
 		int var = (int) rng.below(6);
